@@ -385,12 +385,18 @@ impl Storage {
             }
         }
 
-        batch.commit().expect("batch commit should be ok");
-
+        // The scripts, the block number to filter them from and the removal of the matched
+        // blocks are written together: a crash must not leave one without the others.
         if let Some(min_number) = min_block_number {
-            self.update_min_filtered_block_number(min_number);
+            batch
+                .put(
+                    Key::Meta(MIN_FILTERED_BLOCK_NUMBER).into_vec(),
+                    min_number.to_le_bytes(),
+                )
+                .expect("batch put should be ok");
         }
-        self.clear_matched_blocks();
+        self.clear_matched_blocks(&mut batch);
+        batch.commit().expect("batch commit should be ok");
 
         if should_filter_genesis_block {
             let block = self.get_genesis_block();
@@ -493,10 +499,9 @@ impl Storage {
         self.db.delete(&key).expect("delete matched blocks");
     }
 
-    fn clear_matched_blocks(&self) {
+    fn clear_matched_blocks(&self, batch: &mut Batch) {
         let key_prefix = Key::Meta(MATCHED_FILTER_BLOCKS_KEY).into_vec();
         let mode = IteratorMode::From(key_prefix.as_ref(), Direction::Forward);
-        let mut batch = self.batch();
         for (key, _) in self
             .db
             .iterator(mode)
@@ -504,7 +509,6 @@ impl Storage {
         {
             batch.delete(key).expect("batch delete should be ok");
         }
-        batch.commit().expect("batch commit should be ok");
     }
 
     /// the matched blocks must not empty
